@@ -7,6 +7,7 @@ pub mod c07;
 pub mod c08;
 pub mod c10;
 pub mod c11;
+pub mod c12;
 pub mod daemon;
 pub mod client;
 pub mod hostile;
@@ -113,6 +114,7 @@ pub fn all() -> Vec<PropDef> {
     v.push(c08::def());
     v.push(c10::def());
     v.push(c11::def());
+    v.push(c12::def());
     v.push(fe::def_c02());
     v.push(fe::def_c03());
     v.push(breq::def_c18());
